@@ -6,7 +6,7 @@ import secrets
 from typing import TYPE_CHECKING, Callable
 
 from libpass._utils.binary import B64_CHARS, h64_engine
-from libpass._utils.bytes import StrOrBytes, as_bytes, as_str
+from libpass._utils.bytes import StrOrBytes, as_bytes, as_str, hash_as_str
 from libpass._utils.str import repeat_string
 from libpass._utils.validation import validate_rounds
 from libpass.hashers.abc import PasswordHasher
@@ -311,7 +311,7 @@ class _ShaHasher(PasswordHasher):
         ).as_str()
 
     def verify(self, hash: StrOrBytes, secret: StrOrBytes) -> bool:
-        info = self._inspect(as_str(hash))
+        info = self._inspect(hash_as_str(hash))
 
         if info is None:
             return False
@@ -328,10 +328,10 @@ class _ShaHasher(PasswordHasher):
         return hmac.compare_digest(info.hash, hashed)
 
     def identify(self, hash: StrOrBytes) -> bool:
-        return self._inspect(as_str(hash)) is not None
+        return self._inspect(hash_as_str(hash)) is not None
 
     def needs_update(self, hash: StrOrBytes) -> bool:
-        info = inspect_sha_crypt(hash=as_str(hash), cls=self._info_cls)
+        info = inspect_sha_crypt(hash=hash_as_str(hash), cls=self._info_cls)
         if info is None:
             return True
         return (info.rounds or self._DEFAULT_ROUNDS) != self._rounds
